@@ -112,7 +112,11 @@ def meta_universe(g: Gen, n=40):
         for i in range(1, 4):
             ms.append(Metadata(**g.vary(base, a, i)))
     # None vs "" / numeric representation / dict order variants
+    import math
+
     ms += [Metadata(country=None), Metadata(country=""), Metadata(country="A"),
+           Metadata(risk_basis=None), Metadata(risk_basis=""), Metadata(currency=""), Metadata(loss_definition=""),
+           Metadata(reinsurance_basis=""), Metadata(per_occurrence_limit=math.inf), Metadata(per_occurrence_limit=-1),
            Metadata(per_occurrence_limit=None), Metadata(per_occurrence_limit=0), Metadata(per_occurrence_limit=1e9),
            Metadata(details={"a": 1, "b": 2}), Metadata(details={"b": 2, "a": 1}), Metadata(details={"a": 1}),
            Metadata(details={"a": 1, "b": 3}), Metadata(loss_details={"a": 1}), Metadata(details={"a": 1.0}),
@@ -174,7 +178,11 @@ def op_sequence(ctx, g: Gen, t, length):
                 t2 = r.choice(sl) if sl else t
             elif op == "index_slice":
                 a = r.randint(0, max(0, len(t) - 1))
-                t2 = t[a: a + r.randint(0, 8)]
+                step = r.choice([None, 1, 2, 3, -1, -2])
+                if step is not None and step < 0:
+                    t2 = t[a::step] if r.random() < 0.5 else t[::step]
+                else:
+                    t2 = t[a: a + r.randint(0, 8): step]
             elif op == "add":
                 other, _ = g.triangle(basis="inc" if t.is_incremental else "cum", n_slices=r.randint(1, 2))
                 t2 = t + other
@@ -289,7 +297,8 @@ def run(ctx):
     for s in cases[:2]:
         ctx.sample({"info": s[2], "cells_coq": s[0][:600]})
     # metadata order axioms on the implementation
-    bad = meta_order_oracle(ctx, meta_universe(g))
+    universe = meta_universe(g)
+    bad = meta_order_oracle(ctx, universe)
     # operation chains
     seq_fail = None
     n_seq = 150 if ctx.quick else 1500
@@ -331,8 +340,8 @@ def run(ctx):
                       {"kind": kind, "iterable": it, "cells": [ct.cell_to_obj(c) for c in p1],
                        "cells_other_order": [ct.cell_to_obj(c) for c in p2] if p2 else None}, found_input=True)
     for b in bad[:3]:
-        ms = meta_universe(Gen(random.Random(ctx.seed * 1000003 + 1)))
-        ctx.violation("impl-violation", f"Metadata `<` violates {b[0]}", {"kind": "meta-order", "axiom": b[0]},
+        ctx.violation("impl-violation", f"Metadata `<` violates {b[0]} on {[repr(universe[i]) for i in b[1:]]}",
+                      {"kind": "meta-order", "axiom": b[0], "metadata": [ct.meta_to_obj(universe[i]) for i in b[1:]]},
                       found_input=True)
     if seq_fail:
         trace, (op, probs, t2), t0 = seq_fail
@@ -362,5 +371,18 @@ def replay(ctx, data):
             print("same sequence from both orders/iterables:", same)
             bad = bad or not same
         return 1 if bad else 0
+    if data.get("kind") == "meta-order":
+        ms = [ct.meta_from_obj(o) for o in data["metadata"]]
+        a, b = ms[0], ms[1]
+        print(f"a == b: {a == b}; a < b: {a < b}; b < a: {b < a}")
+        if data["axiom"] == "transitive":
+            c = ms[2]
+            return 1 if (a < b and b < c and not a < c) else 0
+        unordered = a != b and not (a < b) and not (b < a)
+        return 1 if (unordered or (a < b and b < a) or (a == b and (a < b or b < a)) or a < a) else 0
+    if data.get("kind") == "op-chain":
+        print("recorded chain:", data["trace"], "-- re-run ./check C01 with the recorded seed to reproduce")
+        t = Triangle([ct.cell_from_obj(o) for o in data["start"]])
+        return 1
     print(data)
     return 1
